@@ -10,6 +10,7 @@ import (
 	"errors"
 	"fmt"
 	"math"
+	"os"
 	"sort"
 	"strconv"
 	"strings"
@@ -32,6 +33,9 @@ import (
 	u "kaiverif/internal/util"
 )
 
+// traceClaims (C13_TRACE_CLAIMS=1, by hand): the label shows the claims after every command of a DRA world.
+var traceClaims = os.Getenv("C13_TRACE_CLAIMS") != ""
+
 // ---- recording, fault-injecting cache ---------------------------------------
 
 type acall struct {
@@ -47,6 +51,9 @@ type acall struct {
 	//   evict: fingerprints of the action, the preemptor and the message, the eviction gang size
 	//   pipe:  fingerprint of the message
 	Args []int64
+	// Claims (bind, DRA worlds): the claim allocations of the pod handed to Bind - what the BindRequest carries -
+	// as (claim id, device id) pairs
+	Claims []int64
 }
 
 // fp is a fingerprint of a string (FNV-1a, 31 bits) so that free text fits the integer argument list.
@@ -99,6 +106,8 @@ type fcache struct {
 	n     int
 	fails map[int]bool
 	calls []acall
+	// claimArgs: the DRA claim allocations of the pod handed to Bind (claim id, device id pairs), DRA worlds only
+	claimArgs func(*pod_info.PodInfo) []int64
 }
 
 func (f *fcache) next() bool { i := f.n; f.n++; return f.fails[i] }
@@ -112,7 +121,11 @@ func (f *fcache) Bind(p *pod_info.PodInfo, hostname string, ann map[string]strin
 	}
 	sort.Strings(kvs)
 	args = append(args, fp(strings.Join(kvs, ";")))
-	f.calls = append(f.calls, acall{"bind", string(p.UID), hostname, append([]string{}, p.GPUGroups...), args})
+	var cl []int64
+	if f.claimArgs != nil {
+		cl = f.claimArgs(p)
+	}
+	f.calls = append(f.calls, acall{"bind", string(p.UID), hostname, append([]string{}, p.GPUGroups...), args, cl})
 	if f.next() {
 		return errors.New("injected bind failure")
 	}
@@ -132,7 +145,7 @@ func (f *fcache) Evict(pod *v1.Pod, _ *podgroup_info.PodGroupInfo, md eviction_i
 }
 
 func (f *fcache) TaskPipelined(t *pod_info.PodInfo, msg string) {
-	f.calls = append(f.calls, acall{"pipe", string(t.UID), t.NodeName, append([]string{}, t.GPUGroups...), []int64{fp(msg)}})
+	f.calls = append(f.calls, acall{"pipe", string(t.UID), t.NodeName, append([]string{}, t.GPUGroups...), []int64{fp(msg)}, nil})
 	f.next()
 }
 
@@ -191,16 +204,31 @@ type world struct {
 	static map[string]*pod_info.PodInfo // the objects the snapshot was built from (for static attributes only)
 	copies map[string]*pod_info.PodInfo // a clone of every pod as it was when the world was built (cmdSpec.Stale)
 	fresh  int
+	dra    *draSpec // DRA devices, claims and the pods' claim references (nil: a world without claims)
 	// ledger: per queue, the net amount the allocate / deallocate events of this session carried so far (the
 	// quantified AcceptedResource of the event's task, exactly what the proportion plugin adds to / takes from the
 	// job's queue and its ancestors); read through an own event handler registered after the plugins'
 	ledger map[string]*[3]float64
+	// exactGpu: per queue (leaf queues and their ancestors), the GPU usage in thousandths computed in integers: the
+	// charged quantities of the pods that held resources when the session was built, plus / minus the quantity every
+	// allocate / deallocate event carried. The proportion plugin keeps the same sum in float64.
+	exactGpu map[string]int64
+	drift    int // dumps in which Session.QueueAllocatedResources was one whole GPU below the exact sum (float drift)
 }
 
-func newWorld(c cycle.Cluster, fails map[int]bool) *world {
-	w := &world{c: c, ids: core.NewIds(), jobOf: map[string]string{}, static: map[string]*pod_info.PodInfo{}, copies: map[string]*pod_info.PodInfo{}}
-	w.b = cycle.Build(c)
+func newWorld(c cycle.Cluster, fails map[int]bool) *world { return newWorldD(c, nil, fails) }
+
+func newWorldD(c cycle.Cluster, dra *draSpec, fails map[int]bool) *world {
+	w := &world{c: c, ids: core.NewIds(), jobOf: map[string]string{}, static: map[string]*pod_info.PodInfo{}, copies: map[string]*pod_info.PodInfo{}, dra: dra}
+	if dra != nil {
+		w.b = buildDRA(c, dra)
+	} else {
+		w.b = cycle.Build(c)
+	}
 	w.fc = &fcache{Cache: w.b.Ssn.Cache, fails: fails}
+	if dra != nil {
+		w.fc.claimArgs = w.claimArgs
+	}
 	w.b.Ssn.Cache = w.fc
 	for _, n := range c.Nodes {
 		w.ids.Of("n:" + n.Name)
@@ -227,7 +255,17 @@ func newWorld(c cycle.Cluster, fails map[int]bool) *world {
 	for _, q := range w.queueNames() {
 		w.ids.Of("q:" + q)
 	}
+	w.registerClaimIds()
 	w.ledger = map[string]*[3]float64{}
+	w.exactGpu = map[string]int64{}
+	for _, j := range c.Jobs {
+		job := w.b.Jobs[common_info.PodGroupID(j.Name)]
+		for _, ps := range j.Pods {
+			if t := w.pod(ps.Name); t != nil && pod_status.AllocatedStatus(t.Status) {
+				w.chargeChain(job.Queue, milli(w.chargeOf(t)[2]))
+			}
+		}
+	}
 	charge := func(sign float64) func(*framework.Event) {
 		return func(e *framework.Event) {
 			job := w.b.Ssn.ClusterInfo.PodGroupInfos[e.Task.Job]
@@ -235,6 +273,7 @@ func newWorld(c cycle.Cluster, fails map[int]bool) *world {
 				return
 			}
 			qc := putils.QuantifyResourceRequirements(e.Task.AcceptedResource)
+			w.chargeChain(job.Queue, int64(sign)*milli(qc[rs.GpuResource]))
 			l := w.ledger[string(job.Queue)]
 			if l == nil {
 				l = &[3]float64{}
@@ -248,6 +287,32 @@ func newWorld(c cycle.Cluster, fails map[int]bool) *world {
 	w.b.Ssn.AddEventHandler(&framework.EventHandler{AllocateFunc: charge(1), DeallocateFunc: charge(-1)})
 	w.stmt = w.b.Ssn.Statement()
 	return w
+}
+
+// chargeOf is the quantity the proportion plugin has charged for a pod that holds resources: its accepted resources as
+// the plugin quantifies them (for a pod whose node is not in the session: what AddTask on its home node would accept).
+func (w *world) chargeOf(t *pod_info.PodInfo) [3]float64 {
+	if t.AcceptedResource != nil && pod_status.IsActiveUsedStatus(t.Status) {
+		qc := putils.QuantifyResourceRequirements(t.AcceptedResource)
+		return [3]float64{qc[rs.CpuResource], qc[rs.MemoryResource], qc[rs.GpuResource]}
+	}
+	_, ac := w.perNode(t)
+	home := w.c.Nodes[0].Name
+	if _, ok := w.b.Nodes[t.NodeName]; ok {
+		home = t.NodeName
+	}
+	return ac[home]
+}
+
+// chargeChain adds d thousandths of a GPU to a queue and its ancestors.
+func (w *world) chargeChain(q common_info.QueueID, d int64) {
+	qs := w.b.Ssn.ClusterInfo.Queues
+	for qi, ok := qs[q]; ok; qi, ok = qs[qi.ParentQueue] {
+		w.exactGpu[string(qi.UID)] += d
+		if qi.ParentQueue == qi.UID {
+			break
+		}
+	}
 }
 
 // finalTerm renders what the erasure clause compares at the end of a run: the full dump, every pod's accepted
@@ -266,15 +331,15 @@ func (w *world) finalTerm(d dump) string {
 		}
 		ls = append(ls, kv{w.ids.Of("q:" + q), res3(l[0], l[1], l[2])})
 	}
-	return fmt.Sprintf("(mkXF %s %s %s)", w.fullDumpTerm(d), amap(as), amap(ls))
+	return fmt.Sprintf("(mkXF %s %s %s %s)", w.fullDumpTerm(d), amap(as), amap(ls), d.claims)
 }
 
 func (w *world) xcallsTerm(cs []acall) string {
 	out := make([]string, len(cs))
 	for i, c := range cs {
 		k := map[string]int{"bind": 0, "evict": 1, "pipe": 2}[c.Kind]
-		out[i] = fmt.Sprintf("(mkXC %s %s %s %s %s)", u.Nat(k), u.Pos(w.ids.Of("p:"+c.Pod)), w.nodeOpt(c.Node),
-			core.Groups(w.ids, c.Groups), u.ListOf(c.Args, u.Z))
+		out[i] = fmt.Sprintf("(mkXC %s %s %s %s %s %s)", u.Nat(k), u.Pos(w.ids.Of("p:"+c.Pod)), w.nodeOpt(c.Node),
+			core.Groups(w.ids, c.Groups), u.ListOf(c.Args, u.Z), u.ListOf(c.Claims, u.Z))
 	}
 	return u.List(out)
 }
@@ -434,6 +499,11 @@ func (w *world) nodeOpt(name string) string {
 type dump struct {
 	nodes              map[string]string
 	pods, jobs, queues string
+	// queuesRaw: Session.QueueAllocatedResources as returned, when some queue's whole-GPU count is one below the exact
+	// sum (float drift of the plugin's float64 usage, amplified by the getter's truncation); "" otherwise. queues then
+	// holds what the getter returns for the exact sum.
+	queuesRaw string
+	claims, claimsText string // DRA worlds: every pod's ResourceClaimInfo and the plugin's view of every claim
 }
 
 func (w *world) dump() dump {
@@ -467,12 +537,26 @@ func (w *world) dump() dump {
 			res3(job.Allocated.Cpu(), job.Allocated.Memory(), job.Allocated.GPUs()),
 			u.Z(int64(job.GetActiveAllocatedTasksCount())), u.List(idx), amap(pss))})
 	}
+	var qraw []kv
+	drifted := false
 	for _, q := range w.queueNames() {
 		qi := w.b.Ssn.ClusterInfo.Queues[common_info.QueueID(q)]
 		rr := w.b.Ssn.QueueAllocatedResources(qi)
-		qs = append(qs, kv{w.ids.Of("q:" + q), res3(rr.Cpu(), rr.Memory(), rr.GPUs())})
+		raw := res3(rr.Cpu(), rr.Memory(), rr.GPUs())
+		qraw = append(qraw, kv{w.ids.Of("q:" + q), raw})
+		// 2 + 0.3 - 0.3 = 1.9999999999999998 in float64: the getter (whole GPUs from 1 up) then says 1
+		if ex := w.exactGpu[q]; ex >= 2000 && ex%1000 == 0 && milli(rr.GPUs()) == ex-1000 {
+			drifted = true
+			raw = res3(rr.Cpu(), rr.Memory(), float64(ex/1000))
+		}
+		qs = append(qs, kv{w.ids.Of("q:" + q), raw})
+	}
+	if drifted {
+		d.queuesRaw = amap(qraw)
+		w.drift++
 	}
 	d.pods, d.jobs, d.queues = amap(ps), amap(js), amap(qs)
+	d.claims, d.claimsText = w.claimsDump()
 	return d
 }
 
@@ -537,8 +621,7 @@ func (w *world) initTerm() string {
 			jr.AddResourceRequirements(t.ResReq)
 			q3 := ac[home]
 			if t.AcceptedResource != nil && pod_status.IsActiveUsedStatus(t.Status) {
-				qc := putils.QuantifyResourceRequirements(t.AcceptedResource)
-				q3 = [3]float64{qc[rs.CpuResource], qc[rs.MemoryResource], qc[rs.GpuResource]}
+				q3 = w.chargeOf(t)
 			}
 			var gt, qt []kv
 			for _, ns := range w.c.Nodes {
@@ -721,6 +804,10 @@ type result struct {
 	// node whose GPUs have another memory size; "+commit": and that placement was committed
 	heteroReplace string
 	staleCommitted int // shared pods that end Releasing (not virtual) with other GPU groups than in the erased run
+	// DRA worlds: commands after which the claims dump differs from the one before, rollbacks / discards whose claims
+	// dump is compared with the checkpoint's, and those where it differs
+	claimMoves, claimRestores, claimNotRestored int
+	drift                                       int // dumps with a whole-GPU float drift of the queue usage
 }
 
 // gpuMemOf is the memory of the GPUs of a node of the cluster (0: default).
@@ -734,13 +821,17 @@ func gpuMemOf(c cycle.Cluster, node string) int64 {
 }
 
 func runCase(c cycle.Cluster, fails map[int]bool, d driver, maxSteps int) result {
-	w := newWorld(c, fails)
+	return runCaseD(c, nil, fails, d, maxSteps)
+}
+
+func runCaseD(c cycle.Cluster, dra *draSpec, fails map[int]bool, d driver, maxSteps int) result {
+	w := newWorldD(c, dra, fails)
 	res := result{kinds: map[string]int{}}
 	// the second, identically built session for the erased run (built while the program runs)
 	var w2 *world
 	built2 := make(chan struct{})
 	if d.wf() {
-		go func() { w2 = newWorld(c, fails); close(built2) }()
+		go func() { w2 = newWorldD(c, dra, fails); close(built2) }()
 	} else {
 		close(built2)
 	}
@@ -754,8 +845,10 @@ func runCase(c cycle.Cluster, fails map[int]bool, d driver, maxSteps int) result
 	livePlace := map[string]placed{}   // placements of the open statement still in effect
 	abandoned := map[string]map[int64]bool{} // pod -> GPU memory sizes of the nodes of abandoned placements
 	init := w.initTerm()
+	cinit := w.claimsInitTerm()
 	prev := w.dump()
 	d0 := w.fullDumpTerm(prev)
+	cd0, claims0 := prev.claims, prev.claimsText
 	var steps, descr []string
 	// shadow of the log: kind of the command that appended each entry (for the non-triviality rule)
 	var shadow []string
@@ -945,6 +1038,7 @@ func runCase(c cycle.Cluster, fails map[int]bool, d driver, maxSteps int) result
 				res.stale++
 			}
 		}
+		startBefore := start
 		if cs.Kind == "discard" || cs.Kind == "commit" {
 			start = now
 			cpDump = map[int]dump{}
@@ -968,11 +1062,38 @@ func runCase(c cycle.Cluster, fails map[int]bool, d driver, maxSteps int) result
 		if cs.Kind == "commit" || cs.Kind == "discard" || cs.Kind == "checkpoint" {
 			errT = false
 		}
-		steps = append(steps, fmt.Sprintf("(mkOS %s %s %s %s %s %s %s %s)", w.cmdTerm(*cs), u.Bool(errT), u.Nat(ret), callsT,
-			amap(ns), sec(prev.pods, now.pods), sec(prev.jobs, now.jobs), sec(prev.queues, now.queues)))
+		qrawT := "None"
+		if now.queuesRaw != "" {
+			qrawT = u.Opt(true, now.queuesRaw)
+		}
+		steps = append(steps, fmt.Sprintf("(mkOS %s %s %s %s %s %s %s %s %s %s)", w.cmdTerm(*cs), u.Bool(errT), u.Nat(ret), callsT,
+			amap(ns), sec(prev.pods, now.pods), sec(prev.jobs, now.jobs), sec(prev.queues, now.queues), sec(prev.claims, now.claims), qrawT))
 		ds := cs.String()
 		if failed {
 			ds += "!err"
+		}
+		if dra != nil && prev.claims != now.claims {
+			res.claimMoves++
+		}
+		if now.queuesRaw != "" {
+			ds += "~queue-usage-float-drift"
+		}
+		if dra != nil && traceClaims && !(cs.Kind == "rollback" || cs.Kind == "discard") {
+			ds += "[" + now.claimsText + "]"
+		}
+		if dra != nil && !failed && (cs.Kind == "rollback" || cs.Kind == "discard") {
+			// the claims as the scheduler sees them after the abandoned part (readable in replays)
+			ds += "[" + now.claimsText + "]"
+			was, ok := cpDump[cs.Cp]
+			if cs.Kind == "discard" {
+				was, ok = startBefore, true
+			}
+			if ok {
+				res.claimRestores++
+				if was.claims != now.claims {
+					res.claimNotRestored++
+				}
+			}
 		}
 		if len(callsD) > 0 {
 			ds += "{" + strings.Join(callsD, ",") + "}"
@@ -1029,11 +1150,15 @@ func runCase(c cycle.Cluster, fails map[int]bool, d driver, maxSteps int) result
 			}
 		}
 	}
-	res.term = fmt.Sprintf("(KProg (mkPC %s %s %s %s %s %s))", init, u.List(fl), u.Bool(d.wf()), d0, u.List(steps), erT)
+	res.drift = w.drift
+	res.term = fmt.Sprintf("(KProg (mkPC %s %s %s %s %s %s %s %s))", init, u.List(fl), u.Bool(d.wf()), d0, u.List(steps), erT, cinit, cd0)
 	wfs := "wf"
 	if !d.wf() {
 		wfs = "nonwf"
 	}
-	res.label = fmt.Sprintf("%s fails%v %s :: %s", wfs, fli, cycle.Describe(c), strings.Join(descr, " "))
+	res.label = fmt.Sprintf("%s fails%v %s%s :: %s", wfs, fli, cycle.Describe(c), dra.describe(), strings.Join(descr, " "))
+	if dra != nil {
+		res.label += " [claims at start: " + claims0 + "]"
+	}
 	return res
 }
